@@ -23,6 +23,9 @@ pub enum Class {
     V4Header,
     V4HeaderBadSig,
     V4HeaderUnknownKey,
+    /// declares a chunk-signed payload; the seed signature is wrong and the body is never read by most operations
+    V4StreamingBadSig,
+    V4StreamingValidSeed,
     V4Presigned,
     V4PresignedBadSig,
     V4PresignedExpired,
@@ -40,6 +43,8 @@ pub const CLASSES: &[Class] = &[
     Class::V4Header,
     Class::V4HeaderBadSig,
     Class::V4HeaderUnknownKey,
+    Class::V4StreamingBadSig,
+    Class::V4StreamingValidSeed,
     Class::V4Presigned,
     Class::V4PresignedBadSig,
     Class::V4PresignedExpired,
@@ -66,7 +71,7 @@ impl Class {
     fn identity(self) -> Identity {
         match self {
             Class::Anonymous => Identity::Anonymous,
-            Class::V4Header | Class::V4Presigned | Class::V2Header | Class::V2Presigned => Identity::Verified,
+            Class::V4Header | Class::V4Presigned | Class::V2Header | Class::V2Presigned | Class::V4StreamingValidSeed => Identity::Verified,
             Class::DuplicatedAuthorization => Identity::Anonymous,
             _ => Identity::Invalid,
         }
@@ -102,6 +107,23 @@ pub fn dress(base: &sdk::BaseReq, class: Class) -> Option<(Req, Vec<u8>)> {
                 let a = r.get_header("authorization").unwrap();
                 r.headers.push(("authorization".into(), a.into_bytes()));
             }
+        }
+        Class::V4StreamingBadSig | Class::V4StreamingValidSeed => {
+            r.remove_header("content-length");
+            r.set_header("content-encoding", "aws-chunked");
+            r.set_header("x-amz-decoded-content-length", "0");
+            let sig = sign_v4_header(&mut r, SK, &scope, DATE, "STREAMING-AWS4-HMAC-SHA256-PAYLOAD", &["content-encoding", "x-amz-decoded-content-length"]);
+            let body = if class == Class::V4StreamingBadSig {
+                let a = r.get_header("authorization").unwrap().replace(&sig, &"0".repeat(64));
+                r.set_header("authorization", &a);
+                Vec::new()
+            } else {
+                // an honest empty chunk-signed body
+                let chunks = encode_chunks(SK, &scope, DATE, &sig, &[]);
+                chunks.iter().flat_map(|c| c.bytes()).collect()
+            };
+            r.set_header("content-length", &body.len().to_string());
+            return Some((r, body));
         }
         Class::V4Presigned | Class::V4PresignedBadSig | Class::V4PresignedExpired => {
             let sig = presign_v4(&mut r, SK, &scope, DATE, if class == Class::V4PresignedExpired { "1" } else { "3600" }, &["host"]);
@@ -388,7 +410,7 @@ pub fn run(ctx: &Ctx) -> (Acc, Report) {
     });
     let rep = Report {
         level: "exploration",
-        rule: format!("full product: {n_ops} operations (SDK-encoded base request) + the POST form x 14 request classes (anonymous; valid V4 header/presigned, V2 header/presigned; each with a wrong signature; unknown key; expired; duplicated, malformed Authorization) x provider {{none, present}} x access hook {{none, allow, deny, deny-by-operation, deny-in-typed-hook, default}} x route {{none, match-all, never, match-all-open}} x host parser {{none, single}}. Oracle: reference monitor over the ordered event log of recording S3Auth / S3Access::check / typed hook / S3Route / backend. Every case is non-trivial; distinct by id."),
+        rule: format!("full product: {n_ops} operations (SDK-encoded base request) + the POST form x 16 request classes (anonymous; valid V4 header/presigned, V2 header/presigned; each with a wrong signature; unknown key; expired; duplicated, malformed Authorization) x provider {{none, present}} x access hook {{none, allow, deny, deny-by-operation, deny-in-typed-hook, default}} x route {{none, match-all, never, match-all-open}} x host parser {{none, single}}. Oracle: reference monitor over the ordered event log of recording S3Auth / S3Access::check / typed hook / S3Route / backend. Every case is non-trivial; distinct by id."),
         exhaustive: true,
         extra: json!({"operations": n_ops}),
         assumptions: vec![
